@@ -1,5 +1,6 @@
 import S2T.Drv.Util
 import S2T.Gen.SevenZip
+import S2T.Lemmas.SevenZipHeader
 namespace S2T.Drv.C10
 open Lean S2T.Drv S2T.SevenZip S2T.ArchiveLoop
 
@@ -243,6 +244,55 @@ def detectOp (j : Json) : Except String Json := do
       | .unsupported => Json.str "unsupported"
   return Json.mkObj [("t", match t with | some t => jNats t | none => Json.null), ("route", r)]
 
+
+/-! op `c10.write_header`: the writer SPECIFICATION (`S2T/Spec/SevenZipWriter.lean`) rendered for a layout — the very
+    functions the round-trip theorems of `Props/C10_Header.lean` are about — plus `stateOf` of that layout. -/
+
+namespace W
+open S2T.Spec.SevenZipWriter
+
+def getEntry (e : Json) : Except String EntrySpec := do
+  pure { name := ← natArr e "n", isDir := ← getBool e "d", size := ← getNat e "s", attrib := ← getNat e "a",
+         mtime := ← getNat e "t", crc := ← getNat e "c" }
+
+def getFolder (f : Json) : Except String FolderSpec := do
+  let m ← getStr f "m"
+  let method ← match m with
+    | "copy" => pure Method.copy
+    | "lzma" => do pure (Method.lzma (← natArr f "props"))
+    | "lzma2" => do
+      match (← natArr f "props") with
+      | [p] => pure (Method.lzma2 p)
+      | _ => throw "lzma2 needs one property byte"
+    | _ => throw ("unknown method " ++ m)
+  let es ← (← getArr f "entries").toList.mapM getEntry
+  pure { method, packSize := ← getNat f "pack", packCrc := ← getNat f "pcrc", crc := ← getNat f "crc", entries := es }
+
+def getLayout (j : Json) : Except String Layout := do
+  let fs ← (← getArr j "folders").toList.mapM getFolder
+  let tail ← (← getArr j "tail").toList.mapM getEntry
+  let o ← j.getObjVal? "opts"
+  pure { packPos := ← getNat j "pack_pos", folders := fs, tail,
+         opts := { packCrc := ← getBool o "pack_crc", folderCrc := ← getBool o "folder_crc",
+                   alwaysNumStreams := ← getBool o "always_num_streams", attrs := ← getBool o "attrs",
+                   mtime := ← getBool o "mtime", dummy := ← getNat o "dummy", namesFirst := ← getBool o "names_first" } }
+
+def writeHeaderOp (j : Json) : Except String Json := do
+  let L ← getLayout j
+  let bodyLen ← getNat j "body_len"
+  let hdr := writeHeader L
+  return Json.mkObj [("header", jNats hdr), ("start", jNats (startHeader crc32 bodyLen hdr)),
+    ("wf", Json.bool (wellFormed L)), ("mixed", Json.bool (mixedWithFolderCrc L)), ("state", jR (stateOf L))]
+
+/-- op `c10.wprim`: `number n`, `bitVector bits` and `nameBytes name` of the specification -/
+def wprimOp (j : Json) : Except String Json := do
+  let n ← getNat j "n"
+  let bits ← (← getArr j "bits").toList.mapM (fun x => x.getBool?)
+  let name ← natArr j "name"
+  return Json.mkObj [("num", jNats (number n)), ("bits", jNats (bitVector bits)), ("name", jNats (nameBytes name))]
+
+end W
+
 def handle (op : String) (j : Json) : Option (Except String Json) :=
   match op with
   | "c10.sevenzip" => some (sevenzip j)
@@ -252,6 +302,8 @@ def handle (op : String) (j : Json) : Option (Except String Json) :=
   | "c10.tar" => some (tarOp j)
   | "c10.seven" => some (sevenOp j)
   | "c10.detect" => some (detectOp j)
+  | "c10.write_header" => some (W.writeHeaderOp j)
+  | "c10.wprim" => some (W.wprimOp j)
   | _ => none
 
 end S2T.Drv.C10
